@@ -52,7 +52,7 @@ def add(freq, name, parts, quick_inters=(1,), all_inters=(1, 2, 3), **kw):
 for f in (1, 2, 3, 4, 5, 6, 7):
     add(f, 'plain', {}, quick_inters=(2,) if f in (4, 5) else (), cand=1)
 # --- monthly, intervals beyond a year (the month/year carry of the period step)
-add(2, 'plain', {}, quick_inters=(13,), all_inters=(13, 25), cand=1)
+add(2, 'plain', {}, quick_inters=(), all_inters=(13, 25), cand=1)
 add(1, 'plain', {}, quick_inters=(), all_inters=(5,), cand=1)
 # --- monthly
 add(2, 'bymonthday1', {'NDOM': 1}, quick_inters=(), cand=1)
